@@ -61,6 +61,19 @@ def opMoveOps (j : Json) : R Json := do
   let ops := moveOps sw files (← fBool j "cur_exists")
   return Json.arr (ops.map encOp).toArray
 
+def opLexSafe (j : Json) : R Json := do
+  let ps ← (← fArr j "paths").mapM decPath
+  return Json.arr (ps.map fun p => Json.bool (lexSafe p)).toArray
+
+def opPlainName (j : Json) : R Json := do
+  let ps ← (← fArr j "names").mapM (·.getStr?)
+  return Json.arr (ps.map fun p => Json.bool (plainName p)).toArray
+
+def opResolve (j : Json) : R Json := do
+  let root ← decPath (← field j "root")
+  let ps ← (← fArr j "paths").mapM decPath
+  return Json.arr (ps.map fun p => encPath (resolveUnder root p)).toArray
+
 def dispatch (j : Json) : R Json := do
   let op ← fStr j "op"
   match op with
@@ -69,6 +82,9 @@ def dispatch (j : Json) : R Json := do
   | "control" => opControl j
   | "exit" => opExit j
   | "moveops" => opMoveOps j
+  | "lexsafe" => opLexSafe j
+  | "plainname" => opPlainName j
+  | "resolve" => opResolve j
   | _ => throw s!"unknown op {op}"
 
 partial def loop (h : IO.FS.Stream) (out : IO.FS.Stream) : IO Unit := do
